@@ -2,6 +2,7 @@ package gcsemu
 
 import (
 	"context"
+	"encoding/json"
 	"os"
 	"sync"
 	"time"
@@ -89,11 +90,29 @@ func (ms *memstore) Get(baseUrl HttpBaseUrl, bucket string, filename string) (*s
 func (ms *memstore) GetMeta(baseUrl HttpBaseUrl, bucket string, filename string) (*storage.Object, error) {
 	f := ms.find(bucket, filename)
 	if f != nil {
-		meta := f.meta
-		InitMetaWithUrls(baseUrl, &meta, bucket, filename, uint64(len(f.data)))
-		return &meta, nil
+		// Hand out a deep copy: callers decode request bodies into the returned object, and a plain struct copy
+		// would share the custom metadata map, the ACL slice and the sub-messages with the stored object.
+		meta, err := cloneMeta(&f.meta)
+		if err != nil {
+			return nil, err
+		}
+		InitMetaWithUrls(baseUrl, meta, bucket, filename, uint64(len(f.data)))
+		return meta, nil
 	}
 	return nil, nil
+}
+
+// cloneMeta returns a copy of the metadata that shares no memory with the original.
+func cloneMeta(meta *storage.Object) (*storage.Object, error) {
+	buf, err := json.Marshal(meta)
+	if err != nil {
+		return nil, err
+	}
+	var out storage.Object
+	if err := json.Unmarshal(buf, &out); err != nil {
+		return nil, err
+	}
+	return &out, nil
 }
 
 func (ms *memstore) Add(bucket string, filename string, contents []byte, meta *storage.Object) error {
